@@ -210,6 +210,9 @@ func (p *ECPoint) GobDecode(buf []byte) error {
 	if err := binary.Read(reader, binary.LittleEndian, &length); err != nil {
 		return err
 	}
+	if int64(length) > int64(reader.Len()) {
+		return errors.New("gob decode failed: length prefix exceeds the input")
+	}
 	x := make([]byte, length)
 	n, err := reader.Read(x)
 	if n != int(length) || err != nil {
@@ -217,6 +220,9 @@ func (p *ECPoint) GobDecode(buf []byte) error {
 	}
 	if err := binary.Read(reader, binary.LittleEndian, &length); err != nil {
 		return err
+	}
+	if int64(length) > int64(reader.Len()) {
+		return errors.New("gob decode failed: length prefix exceeds the input")
 	}
 	y := make([]byte, length)
 	n, err = reader.Read(y)
@@ -265,6 +271,9 @@ func (p *ECPoint) UnmarshalJSON(payload []byte) error {
 	}{}
 	if err := json.Unmarshal(payload, &aux); err != nil {
 		return err
+	}
+	if aux.Coords[0] == nil || aux.Coords[1] == nil {
+		return errors.New("ECPoint.UnmarshalJSON: missing coordinates")
 	}
 	p.coords = [2]*big.Int{aux.Coords[0], aux.Coords[1]}
 
